@@ -5,6 +5,7 @@ package props
 import (
 	"fmt"
 	"hash/fnv"
+	"net/url"
 	"runtime"
 	"strings"
 	"sync"
@@ -132,7 +133,7 @@ func propC11Sequential(t *rapid.T) {
 	derived = append(derived, derived[1].With([]zapcore.Field{zap.Int("y", 2)}))
 	// the same sampler behind wrappers and inside a tee after a sibling that accepts everything: still ONE decision
 	// (and one hook call) per entry, against the same budget
-	sibling, _ := observer.New(zapcore.Level(-128))
+	sibling, siblingLogs := observer.New(zapcore.Level(-128))
 	nopHook := func(zapcore.Entry) error { return nil }
 	derived = append(derived,
 		zapcore.RegisterHooks(s, nopHook),
@@ -140,7 +141,8 @@ func propC11Sequential(t *rapid.T) {
 		zapcore.NewTee(sibling, s),
 		zapcore.NewTee(sibling, zapcore.NewLazyWith(derived[1], []zapcore.Field{zap.Int("z", 3)})),
 	)
-	other := mk() // an independent sampler: own budget
+	firstTee := len(derived) - 3 // the last three are tees with the all-accepting sibling in front
+	other := mk()                // an independent sampler: own budget
 	models := []*c11Model{
 		{uint64(n), uint64(m), tick, th, map[c11Key]*c11Window{}},
 		{uint64(n), uint64(m), tick, th, map[c11Key]*c11Window{}},
@@ -166,11 +168,13 @@ func propC11Sequential(t *rapid.T) {
 		lvl := zapcore.Level(rapid.SampledFrom([]int8{-2, -1, 0, 0, 1, 2, 5, 6, 100, 0, 0}).Draw(t, "level"))
 		msg := rapid.SampledFrom(c11Messages).Draw(t, "msg")
 		which := 0
+		isTee := false
 		var c zapcore.Core
 		if rapid.IntRange(0, 5).Draw(t, "useOther") == 0 {
 			which, c = 1, other
 		} else {
-			c = derived[rapid.IntRange(0, len(derived)-1).Draw(t, "derived")]
+			di := rapid.IntRange(0, len(derived)-1).Draw(t, "derived")
+			c, isTee = derived[di], di >= firstTee
 		}
 		md := models[which]
 		// classification helpers (before deciding)
@@ -201,8 +205,13 @@ func propC11Sequential(t *rapid.T) {
 			ent.Stack = "stack"
 		}
 		before, hb := logs.Len(), len(hooks)
+		sibBefore := siblingLogs.Len()
 		if ce := c.Check(ent, nil); ce != nil {
 			ce.Write()
+		}
+		if isTee && siblingLogs.Len()-sibBefore != 1 {
+			// the sampler's verdict concerns its own wrapped core only: a sibling branch that accepted the entry keeps it
+			t.Fatalf("a tee branch BESIDE the sampler (it accepts everything) received %d entries for one entry at level %d %q", siblingLogs.Len()-sibBefore, int8(lvl), clipS(msg))
 		}
 		got := logs.Len() - before
 		want := 0
@@ -405,3 +414,99 @@ func TestRegressC11(t *testing.T) {
 		t.Fatalf("out-of-range level must pass unsampled without a hook call")
 	}
 }
+
+// ---- the sampler assembled by Config.Build (route equivalence, and who owns the SamplingConfig afterwards)
+
+type c11MemSink struct {
+	mu    sync.Mutex
+	lines int
+}
+
+func (s *c11MemSink) Write(p []byte) (int, error) {
+	s.mu.Lock()
+	s.lines += strings.Count(string(p), "\n")
+	s.mu.Unlock()
+	return len(p), nil
+}
+func (s *c11MemSink) Sync() error  { return nil }
+func (s *c11MemSink) Close() error { return nil }
+func (s *c11MemSink) n() int       { s.mu.Lock(); defer s.mu.Unlock(); return s.lines }
+
+var (
+	c11SinkOnce sync.Once
+	c11Sinks    sync.Map
+	c11SinkSeq  atomic.Int64
+)
+
+const c11Scheme = "vc11mem"
+
+func propC11Config(t *rapid.T) {
+	c11SinkOnce.Do(func() {
+		if err := zap.RegisterSink(c11Scheme, func(u *url.URL) (zap.Sink, error) {
+			s := &c11MemSink{}
+			c11Sinks.Store(u.Host, s)
+			return s, nil
+		}); err != nil {
+			panic(err)
+		}
+	})
+	n := rapid.IntRange(0, 4).Draw(t, "initial")
+	m := rapid.IntRange(0, 4).Draw(t, "thereafter")
+	own, decoy := 0, 0
+	cfg := zap.NewProductionConfig()
+	cfg.Level = zap.NewAtomicLevelAt(zapcore.DebugLevel)
+	cfg.Sampling = &zap.SamplingConfig{Initial: n, Thereafter: m, Hook: func(zapcore.Entry, zapcore.SamplingDecision) { own++ }}
+	host := fmt.Sprintf("case%d", c11SinkSeq.Add(1))
+	cfg.OutputPaths = []string{c11Scheme + "://" + host}
+	cfg.ErrorOutputPaths = []string{c11Scheme + "://" + host + "err"}
+	clk := &stepClock{}
+	lg, err := cfg.Build(zap.WithClock(clk))
+	if err != nil {
+		t.Fatalf("VERIF-INCONCLUSIVE Build: %v", err)
+	}
+	v, _ := c11Sinks.Load(host)
+	sink := v.(*c11MemSink)
+	defer c11Sinks.Delete(host)
+	defer c11Sinks.Delete(host + "err")
+	// the configuration is the caller's again once Build has returned: it is edited and reused for the next logger
+	switch rapid.SampledFrom([]string{"untouched", "hook replaced", "hook nil", "budget changed", "sampling nil"}).Draw(t, "afterBuild") {
+	case "hook replaced":
+		cfg.Sampling.Hook = func(zapcore.Entry, zapcore.SamplingDecision) { decoy++ }
+	case "hook nil":
+		cfg.Sampling.Hook = nil
+	case "budget changed":
+		cfg.Sampling.Initial, cfg.Sampling.Thereafter = 1000, 1
+	case "sampling nil":
+		cfg.Sampling = nil
+	}
+	tick := int64(time.Second) // Config.Build's sampler ticks once per second
+	md := &c11Model{uint64(n), uint64(m), tick, zapcore.DebugLevel, map[c11Key]*c11Window{}}
+	now := int64(0)
+	cnt := rapid.IntRange(1, 30).Draw(t, "entries")
+	named := lg.Named("component")
+	for i := 0; i < cnt; i++ {
+		now += rapid.SampledFrom([]int64{0, 1, tick - 1, tick, tick + 1, tick / 2}).Draw(t, "dt")
+		clk.now.Store(now)
+		lvl := zapcore.Level(rapid.IntRange(-1, 2).Draw(t, "level"))
+		msg := rapid.SampledFrom(c11Messages).Draw(t, "msg")
+		forward, _, _ := md.decide(lvl, msg, now)
+		before := sink.n()
+		l := lg
+		if rapid.Bool().Draw(t, "named") {
+			l = named
+		}
+		l.Log(lvl, msg)
+		if got := sink.n() - before; (got == 1) != forward || got > 1 {
+			t.Fatalf("Config.Build{Initial:%d Thereafter:%d}: entry %d (level %d %q t=%d): %d lines written, model says forwarded=%v", n, m, i, lvl, msg, now, got, forward)
+		}
+	}
+	if own != cnt {
+		t.Fatalf("Config.Build{Initial:%d Thereafter:%d}: the hook the logger was built with was called %d times for %d decided entries", n, m, own, cnt)
+	}
+	if decoy != 0 {
+		t.Fatalf("a hook stored into the SamplingConfig AFTER Build was called %d times by the logger built earlier", decoy)
+	}
+	statCase("C11", true, fmt.Sprintf("config|n%d m%d|%d", n, m, cnt/8), "sampler assembled by Config.Build")
+}
+
+func TestC11Config(t *testing.T) { rapid.Check(t, propC11Config) }
